@@ -368,14 +368,21 @@ def generate(api):
          "fix_recursive_fe_image removes the filter of an feImage target that uses the filter the feImage is in")
 
     # ---------------------------------------------------------------- pre-pass: what the scans range over (frame clause)
+    miss3 = []          # ties that concern C03 only
+
+    def setg3(name, val, why):
+        G[name] = bool(val)
+        notes[name] = why
+        if not val:
+            miss3.append("%s (%s)" % (name, why))
     fb = fn_body(psrc, 'find_recursive_link') or ''
-    setg('G_PRE_LINK_SCOPE',
+    setg3('G_PRE_LINK_SCOPE',
          bool(re.search(r"for\s+node\s+in\s+doc\s*\.\s*root\s*\(\s*\)\s*\.\s*descendants\s*\(\s*\)\s*\.\s*filter\s*\(\s*\|\s*n\s*\|\s*n\s*\.\s*tag_name\s*\(\s*\)\s*==\s*Some\s*\(\s*eid\s*\)\s*\)\s*"
                         r"\{\s*for\s+child\s+in\s+node\s*\.\s*descendants\s*\(\s*\)\s*\{\s*if\s+let\s+Some\s*\(\s*link\s*\)\s*=\s*child\s*\.\s*node_attribute\s*\(\s*aid\s*\)\s*\{", fb))
          and len(re.findall(r"\breturn\s+Some\b", fb)) == 2,
          "find_recursive_link looks only at elements named `eid` and, first, only at references held by their own descendants")
     fb = fn_body(psrc, 'find_recursive_pattern') or ''
-    setg('G_PRE_PAT_SCOPE',
+    setg3('G_PRE_PAT_SCOPE',
          bool(re.search(r"for\s+pattern_node\s+in\s+doc\s*\.\s*root\s*\(\s*\)\s*\.\s*descendants\s*\(\s*\)\s*\.\s*filter\s*\(\s*\|\s*n\s*\|\s*n\s*\.\s*tag_name\s*\(\s*\)\s*==\s*Some\s*\(\s*EId\s*::\s*Pattern\s*\)\s*\)\s*"
                         r"\{\s*for\s+node\s+in\s+pattern_node\s*\.\s*descendants\s*\(\s*\)\s*\{\s*let\s+value\s*=\s*match\s+node\s*\.\s*attribute\s*\(\s*aid\s*\)", fb))
          and bool(re.search(r"for\s+node2\s+in\s+linked_node\s*\.\s*descendants\s*\(\s*\)\s*\{\s*let\s+value2\s*=\s*match\s+node2\s*\.\s*attribute\s*\(\s*aid\s*\)", fb))
@@ -384,7 +391,6 @@ def generate(api):
 
     # ---------------------------------------------------------------- nested documents (image / feImage -> load_sub_svg)
     IMG = 'crates/usvg/src/parser/image.rs'
-    miss3 = []
     isrc = rd(IMG)
     sb = fn_body(isrc, 'load_sub_svg') or ''
     mo = re.search(r"let\s+sub_opt\s*=\s*Options\s*\{", sb)
@@ -413,10 +419,7 @@ def generate(api):
             ('G_SUB_OPT_USED', g_used, "load_sub_svg parses the sub-document with its own `sub_opt`, and that is the only Tree::from_* call in parser/** (found %d)" % n_from),
             ('G_SUB_DATA_NONE', g_data, "the sub-document's resolve_data returns None (no nested data: documents)"),
             ('G_SUB_STRING_NONE', g_string, "the sub-document's resolve_string returns None (no nested files)")):
-        G[name] = bool(val)
-        notes[name] = why
-        if not val:
-            miss3.append("%s (%s)" % (name, why))
+        setg3(name, val, why)
 
     out = [api.HEADER,
            "(* Guards of usvg's reference handling as found in the source (tools/gen_links.py). *)",
@@ -432,7 +435,9 @@ def generate(api):
     out.append("\n(* the fix_recursive_* calls of svgtree::parse(), in order *)")
     out.append("Definition PREPASS : list pstep := [%s].\n" % "; ".join(steps))
     api.write_gen('LinkGuards.v', "\n".join(out))
+    if miss3:
+        api.broken('guards', 'pre-pass scope / nested-document guards', ['C03'], "; ".join(miss3))
     if miss:
         api.broken('guards', 'reference-loop guards', PROPS, "; ".join(miss))
-    else:
+    elif not miss3:
         api.ok('tables', 'link_guards', guards=len(G), prepass=steps)
